@@ -2624,7 +2624,10 @@ func (s *swamp) DeleteTreasure(key string, shadowDelete bool) error {
 
 	// delete the treasure from the beaconKey
 	// delete the treasure from the swamp and from the chroniclerInterface too
-	s.deleteHandler(key, shadowDelete)
+	if s.deleteHandler(key, shadowDelete) == nil {
+		// somebody else removed it first
+		return errors.New(ErrorTreasureDoesNotExists)
+	}
 
 	// destroy the swamp if there is no treasure in it
 	if s.beaconKey.Count() == 0 {
@@ -2655,11 +2658,17 @@ func (s *swamp) CloneAndDeleteExpiredTreasures(howMany int32) ([]treasure.Treasu
 	shiftedTreasures := s.expirationTimeBeaconASC.ShiftExpired(int(howMany))
 
 	// delete the shifted treasures from the other indexes
+	// A treasure that a concurrent Delete removed between the selection and this
+	// point is not ours to hand out: keep only what deleteHandler really removed.
+	removed := shiftedTreasures[:0]
 	for _, d := range shiftedTreasures {
 		// delete the treasure from the beaconKey
 		// A lejárt treasureok esetében mindig valódi törlést végzünk és nem csak "törölt" flaggel jelöljük meg a treasuret
-		s.deleteHandler(d.GetKey(), false)
+		if s.deleteHandler(d.GetKey(), false) != nil {
+			removed = append(removed, d)
+		}
 	}
+	shiftedTreasures = removed
 
 	// destroy the swamp if there is no treasure in it
 	remainingCount := s.beaconKey.Count()
@@ -2738,9 +2747,15 @@ func (s *swamp) CloneAndDeleteMatchingTreasures(beaconType BeaconType, order Bea
 
 	// Drop shifted treasures from every sibling index — same as
 	// CloneAndDeleteExpiredTreasures. Permanent delete (shadowDelete=false).
+	// Keep only what deleteHandler really removed (see
+	// CloneAndDeleteExpiredTreasures).
+	removed := shiftedTreasures[:0]
 	for _, d := range shiftedTreasures {
-		s.deleteHandler(d.GetKey(), false)
+		if s.deleteHandler(d.GetKey(), false) != nil {
+			removed = append(removed, d)
+		}
 	}
+	shiftedTreasures = removed
 
 	// Auto-destroy on empty, mirroring CloneAndDeleteExpiredTreasures.
 	if s.beaconKey.Count() == 0 {
@@ -2941,6 +2956,12 @@ func (s *swamp) deleteHandler(key string, shadowDelete bool) (deletedTreasure tr
 
 	guardID := treasureObj.StartTreasureGuard(true, guard.BodyAuthID)
 	defer treasureObj.ReleaseTreasureGuard(guardID)
+
+	// Someone else may have removed the treasure while we were waiting for its
+	// guard: only one caller may report it as deleted.
+	if s.beaconKey.Get(key) != treasureObj {
+		return nil
+	}
 
 	// Még változtatás előtt lemásoljuk a Treasure-t, hogy egy clone-t készíthessünk róla, hogy a törölt treasure-t minden
 	// adatával együtt vissza tudjuk adni.
